@@ -49,6 +49,7 @@ def check(repo, tier="quick"):
     res.rule("C20.a", "no bit is emitted for a rejected value: an OutOfRangeError guard dominates the first write in write_nbits/write_bitarray/write_bytes/write_uint, and exp_golomb_length rejects negatives")
     res.rule("C20.b", "bounded-block bookkeeping (begin/end/bits_remaining/seek preamble/decrement-and-test) is the same program in reader and writer; past-the-end arms are `return 1` vs `raise ValueError iff value is 0`")
     res.rule("C20.c", "bit order and byte advance mirror each other: MSB-first fixed-width integers, shared _next_bit discipline, zero padding to the declared length")
+    res.rule("C20.e", "single bit-level layer: the file and the position/accounting fields (_byte_offset, _current_byte, _next_bit, _bits_remaining) are touched only by the primitives (__init__, _read_byte/_write_byte, read_bit/write_bit, seek, flush, bounded_block_begin/end); every multi-bit reader/writer moves data only through read_bit/write_bit, so bounded-block accounting and reader/writer agreement apply to all of them")
     res.rule("C20.d", "signed codes: write_sint = write_uint(abs(v)) + sign bit iff v != 0, read_sint reads the sign iff the magnitude is non-zero, signed length = unsigned length of abs(v) + 1 iff v != 0; exp_golomb_length counts the bits of write_uint's loop")
 
     m = repo.mod(IO)
@@ -60,6 +61,8 @@ def check(repo, tier="quick"):
     rule_b(repo, res, R, W, where)
     rule_c(repo, res, R, W, where)
     rule_d(repo, res, R, W, where)
+    rule_e(repo, res, R, W, where)
+    res.floor("C20.e", 10)
     res.floor("C20.a", 5)
     res.floor("C20.b", 6)
     res.floor("C20.c", 6)
@@ -99,6 +102,33 @@ def rule_a(repo, res, W, where):
     body = strip_doc(eg)
     ok = bool(body) and isinstance(body[0], ast.If) and isinstance(body[0].test, ast.Compare) and isinstance(body[0].test.ops[0], ast.Lt) and any(isinstance(b, ast.Raise) and dotted(getattr(b.exc, "func", None)) == "OutOfRangeError" for b in body[0].body)
     res.check(ok, "C20.a", "exp_golomb_length:rejects-negative", "%s:exp_golomb_length" % em.rel, "exp_golomb_length must raise OutOfRangeError for negative values before computing", by="if value < 0: raise OutOfRangeError")
+
+
+def inline_locals(fn, expr, depth=0):
+    """expr with every Name that has exactly one assignment in fn (a plain
+    `name = <expression>` statement) replaced by that expression."""
+    import copy
+
+    if depth > 4:
+        return expr
+    params = set(a.arg for a in fn.args.args)
+    defs = {}
+    for n in ast.walk(fn):
+        if isinstance(n, ast.Assign) and len(n.targets) == 1 and isinstance(n.targets[0], ast.Name):
+            defs.setdefault(n.targets[0].id, []).append(n.value)
+        elif isinstance(n, (ast.AugAssign, ast.For)) :
+            t = n.target
+            for x in ast.walk(t):
+                if isinstance(x, ast.Name):
+                    defs.setdefault(x.id, []).extend([None, None])
+
+    class Sub(ast.NodeTransformer):
+        def visit_Name(self, node):
+            if isinstance(node.ctx, ast.Load) and node.id not in params and len(defs.get(node.id, [])) == 1 and defs[node.id][0] is not None:
+                return inline_locals(fn, copy.deepcopy(defs[node.id][0]), depth + 1)
+            return node
+
+    return Sub().visit(copy.deepcopy(expr))
 
 
 def bookkeeping_preamble(fn):
@@ -180,8 +210,13 @@ def rule_c(repo, res, R, W, where):
             ok = r == ("0", "%s*1" % bits) and rev is True and body == ["self.write_bit(%s >> %s & 1)" % (val, i)]
     res.check(ok, "C20.c", "write_nbits:msb-first", "%s:BitstreamWriter.write_nbits" % where, "write_nbits must emit bit i for i = bits-1 down to 0", by="for i in descending range(bits): write_bit((value >> i) & 1)")
     # guard of write_nbits: value < 0 or bit_length > bits
-    t = norm(wn)
-    ok = "%s < 0" % val in t and "%s.bit_length() > %s" % (val, bits) in t
+    ok = False
+    for g in ast.walk(wn):
+        if isinstance(g, ast.If) and any(isinstance(b, ast.Raise) and isinstance(b.exc, ast.Call) and dotted(b.exc.func) == "OutOfRangeError" for b in g.body):
+            disj = [norm(inline_locals(wn, d)) for d in (g.test.values if isinstance(g.test, ast.BoolOp) and isinstance(g.test.op, ast.Or) else [g.test])]
+            neg = any(d in ("%s < 0" % val, "0 > %s" % val) for d in disj)
+            wide = any(d in ("%s.bit_length() > %s" % (val, bits), "%s < %s.bit_length()" % (bits, val)) for d in disj)
+            ok = ok or (neg and wide)
     res.check(ok, "C20.c", "write_nbits:range", "%s:BitstreamWriter.write_nbits" % where, "write_nbits must reject negative values and values wider than `bits`", by="value < 0 or value.bit_length() > bits")
     # read_bit / write_bit share the _next_bit discipline
     rb, wb = R["read_bit"], W["write_bit"]
@@ -272,3 +307,42 @@ def rule_d(repo, res, R, W, where):
     t = norm(ru)
     ok = "value = 1" in t and "if self.read_bit(): break" in t and "value <<= 1" in t and "value += self.read_bit()" in t and "value -= 1" in t
     res.check(ok, "C20.d", "read_uint:mirrors-write_uint", "%s:BitstreamReader.read_uint" % where, "read_uint must start from 1, stop on a 1 prefix bit, otherwise shift in one data bit, and finally subtract 1", by="start 1; 0-prefix: shift in a bit; 1-prefix: stop; minus 1")
+
+
+PRIMITIVES = {
+    "BitstreamReader": {"__init__", "_read_byte", "read_bit", "seek", "bounded_block_begin", "bounded_block_end"},
+    "BitstreamWriter": {"__init__", "_write_byte", "write_bit", "seek", "flush", "bounded_block_begin", "bounded_block_end"},
+}
+LOW_FIELDS = {"_file", "_byte_offset", "_current_byte", "_next_bit", "_bits_remaining"}
+
+
+def rule_e(repo, res, R, W, where):
+    for cname, meths, bitfn, bytefn in (("BitstreamReader", R, "read_bit", "_read_byte"), ("BitstreamWriter", W, "write_bit", "_write_byte")):
+        prims = PRIMITIVES[cname]
+        if not prims <= set(meths):
+            raise AnalysisError("%s: primitive methods %s not found" % (cname, sorted(prims - set(meths))))
+        for name, fn in meths.items():
+            w = "%s:%s.%s" % (where, cname, name)
+            touched = []
+            for n in ast.walk(fn):
+                tg = []
+                if isinstance(n, ast.Assign):
+                    tg = n.targets
+                elif isinstance(n, ast.AugAssign):
+                    tg = [n.target]
+                elif isinstance(n, ast.Delete):
+                    tg = n.targets
+                for t in tg:
+                    for y in ast.walk(t):
+                        if isinstance(y, ast.Attribute) and isinstance(y.value, ast.Name) and y.value.id == "self" and y.attr in LOW_FIELDS and not isinstance(y.ctx, ast.Load):
+                            touched.append("store self.%s" % y.attr)
+                if isinstance(n, ast.Call) and isinstance(n.func, ast.Attribute) and isinstance(n.func.value, ast.Attribute) and n.func.value.attr == "_file" and dotted(n.func.value.value) == "self":
+                    touched.append("self._file.%s()" % n.func.attr)
+                if isinstance(n, ast.Attribute) and n.attr == "_file" and dotted(n.value) == "self" and not (isinstance(getattr(n, "_parent", None), ast.Attribute) and isinstance(getattr(n._parent, "_parent", None), ast.Call) and n._parent._parent.func is n._parent) and isinstance(n.ctx, ast.Load):
+                    touched.append("self._file escapes")
+                if isinstance(n, ast.Call) and dotted(n.func) == "self.%s" % bytefn and name not in prims:
+                    touched.append("self.%s()" % bytefn)
+            if name in prims:
+                res.ok("C20.e", "%s.%s:primitive" % (cname, name), w, by="member of the bit-level layer")
+            else:
+                res.check(not touched, "C20.e", "%s.%s:goes-through-%s" % (cname, name, bitfn), w, "%s.%s is not a bit-level primitive but performs %s: data moved this way bypasses %s's bounded-block accounting and the mirrored reader/writer discipline" % (cname, name, sorted(set(touched)), bitfn), by="no direct access to the file or the position fields")
